@@ -143,6 +143,50 @@ def threaded_records(jp, rng, n_threads, rounds, chk):
     return recs
 
 
+def hammer_records(jp, rng, n_threads, iterations):
+    """All threads evaluate the SAME compiled query objects at the same time, each on a wide document of its own:
+    whatever a compiled query keeps between calls (scratch buffers, cursors) is shared by the threads."""
+    env = jp.JSONPathEnvironment()
+    qs = ["$..*", "$..a", "$..[?@.a]", "$[?count(@..*) > 3]", "$..[?count(@.*) > 1 && @.a]", "$[*]..[0]", "$..[?@ == $.k]"]
+    shared = [env.compile(q) for q in qs]
+    docs = [{"k": t, "w": [{"a": [t, i, {"a": i, "b": [t]}], "b": {"a": [i, t], "c": t}} for i in range(10 + t)]} for t in range(n_threads)]
+    results = [[] for _ in range(n_threads)]
+    barrier = threading.Barrier(n_threads)
+
+    def work(t):
+        barrier.wait()
+        for it in range(iterations):
+            k = (it + t) % len(shared)
+            try:
+                nodes = shared[k].find(docs[t])
+                results[t].append((k, "ok", [core.enc_loc(n.location) for n in nodes], ""))
+            except Exception as err:  # noqa: BLE001
+                results[t].append((k, "raise", [], type(err).__name__))
+
+    old = sys.getswitchinterval()
+    sys.setswitchinterval(1e-6)
+    try:
+        ths = [threading.Thread(target=work, args=(t,)) for t in range(n_threads)]
+        for th in ths:
+            th.start()
+        for th in ths:
+            th.join()
+    finally:
+        sys.setswitchinterval(old)
+    recs = []
+    edocs = [core.enc_value(d) for d in docs]
+    seen = set()
+    for t in range(n_threads):
+        for k, out, locs, cls in results[t]:
+            key = (t, k, out, json.dumps(locs))
+            if key in seen:
+                continue                      # identical outcomes of the same (thread, query) are validated once
+            seen.add(key)
+            recs.append({"op": "find", "q": core.enc_text(qs[k]), "doc": edocs[t], "out": out, "stage": "find", "jp": out == "ok", "cls": cls,
+                         "locs": locs, "threads": n_threads})
+    return recs
+
+
 def compile_stress(jp, rng, n_threads, seconds, n_queries=320):
     """Several threads compile and evaluate MANY distinct queries on one shared environment
     (so that any bounded cache inside the environment keeps evicting).  Returns (records, errors)."""
@@ -287,6 +331,8 @@ def run(chk: core.Check, tier: str, seed: int) -> None:
         for nt in (2, 4, 8):
             recs += threaded_records(jp, rng, nt, 12, chk)
     recs += handover_records(jp, rng, 30 if tier == "quick" else 600)
+    for nt in ((4, 8) if tier == "quick" else (2, 4, 8, 16)):
+        recs += hammer_records(jp, rng, nt, 60 if tier == "quick" else 600)
     for nt in ((4, 8) if tier == "quick" else (2, 4, 8, 16)):
         srecs, errors = compile_stress(jp, rng, nt, 4.0 if tier == "quick" else 40.0)
         recs += srecs
